@@ -52,6 +52,11 @@ func (v *Point) SetExtendedCoordinates(X, Y, Z, T *field.Element) (*Point, error
 
 func isOnCurve(X, Y, Z, T *field.Element) bool {
 	var lhs, rhs field.Element
+	// Z = 0 does not represent a point: the two equations below would then
+	// also accept (0:0:0:0), in any non-canonical limb form.
+	if Z.Equal(new(field.Element)) == 1 {
+		return false
+	}
 	XX := new(field.Element).Square(X)
 	YY := new(field.Element).Square(Y)
 	ZZ := new(field.Element).Square(Z)
